@@ -9,13 +9,13 @@ from vk import common
 PROPERTY = "C15"
 LEVEL = "exploration"
 RULE = ("every directed graph on n<=3 (quick) / n<=4 (thorough) nodes incl. self-loops, node order = "
-        "source order, realised 6 ways (virtual-field values, field start offsets, existence conditions, "
+        "source order, realised 8 ways (virtual-field values, field start offsets, existence conditions, type-parameter arguments, "
         "array sizes, enum values, module imports); oracle = plain DFS SCC + topological-order check. "
         "Non-trivial = graph with at least one edge; distinct by (realisation, n, edge mask).")
 ASSUMPTIONS = ["reference SCC/topological code in checks/c15.py",
                "compile watchdog 10 s stands for non-termination"]
 TIMEOUT = 900
-REALS = ["virt", "loc", "cond", "size", "enum", "import", "mixed"]
+REALS = ["virt", "loc", "cond", "size", "enum", "import", "mixed", "param"]
 ENAMES = ["NA", "NB", "NC", "ND"]
 
 
@@ -76,10 +76,10 @@ def source_for(real, n, adj):
             files["m%d.emb" % i] = "\n".join(lines) + "\n"
         return files, "m0.emb"
     lines = ['[$default byte_order: "LittleEndian"]', "struct Inner:", "  0 [+1]  UInt  x",
-             "  1 [+x]  UInt:8[]  rest", "struct Foo:"]
+             "  1 [+x]  UInt:8[]  rest", "struct Par(p: UInt:16):", "  0 [+1]  UInt  x", "struct Foo:"]
     for i in range(n):
         deps = [nm[j] for j in adj[i]]
-        if real in ("size", "mixed"):
+        if real in ("size", "mixed", "param"):
             deps = [d + ".x" for d in deps]
         if real == "virt":
             lines.append("  let %s = %s" % (nm[i], " + ".join(deps + ["1"])))
@@ -93,6 +93,8 @@ def source_for(real, n, adj):
                 lines.append("  %d [+1]  UInt  %s" % (i, nm[i]))
         elif real == "size":
             lines.append("  %d [+%s]  Inner  %s" % (i, " + ".join(deps) if deps else "2", nm[i]))
+        elif real == "param":
+            lines.append("  %d [+1]  Par(%s)  %s" % (i, " + ".join(deps) if deps else "0", nm[i]))
         elif real == "mixed":
             # deps spread over condition / start / size of one field
             cond = [d for k, d in enumerate(deps) if k % 3 == 0]
@@ -132,6 +134,9 @@ def ir_deps(e, structure):
             walk(f.existence_condition, acc)
         if f.has_field("read_transform"):
             walk(f.read_transform, acc)
+        if f.has_field("type") and f.type.has_field("atomic_type"):
+            for a in f.type.atomic_type.runtime_parameter:
+                walk(a, acc)
         if f.has_field("type") and f.type.has_field("array_type"):
             t = f.type.array_type
             if t.has_field("element_count"):
